@@ -5,8 +5,14 @@ level (no relay, no ciaddr, broadcast flag clear, not a NAK) — C15's last dest
 
 Out of the repository, hence taken at their documented meaning: gopacket's serialisation of the
 Ethernet / IPv4 / UDP layers (it refuses hardware addresses that are not six bytes long, computes
-lengths and checksums), `syscall.Sendto` on a packet socket. The reply's own bytes (`resp.ToBytes()`)
-are an input. Core Lean only: linked into the driver.
+lengths and checksums), `syscall.Sendto` on a packet socket. Core Lean only: linked into the driver.
+
+The UDP payload is NOT `resp.ToBytes()` itself: sendEthernet.go:55-57,61 decode those bytes with gopacket
+(`gopacket.NewPacket(resp.ToBytes(), layers.LayerTypeDHCPv4, …)`, `packet.Layer(…)`) and serialise the decoded
+layer again, and gopacket's `layers.DHCPv4` stops at the End option: the zero padding `ToBytes` adds up to the
+BOOTP minimum of 300 bytes is not sent (an OFFER of 300 bytes leaves as 256). `Args.wire` is therefore the
+re-serialised message, `dhcpLayerBytes (resp.ToBytes())`; Generated/Ethernet.lean carries pairs computed with the
+real libraries and Props/GenEthernet.lean checks `dhcpLayerBytes` against them.
 -/
 namespace CoreDhcp
 namespace Eth
@@ -20,8 +26,28 @@ structure Args where
   chaddr  : Bytes        -- resp.ClientHWAddr
   siaddr  : Bytes        -- resp.ServerIPAddr
   yiaddr  : Bytes        -- resp.YourIPAddr
-  wire    : Bytes        -- resp.ToBytes()
+  wire    : Bytes        -- dhcpLayerBytes (resp.ToBytes()): what gopacket's DHCPv4 layer serialises, see above
 deriving DecidableEq, Repr, Inhabited
+
+/-- the options gopacket's `layers.DHCPv4` keeps when it decodes a message (`DecodeFromBytes`): one after the other
+up to the first End (255), a Pad (0) being one byte long; the first argument bounds the walk -/
+def keptOptions : Nat → Bytes → Bytes
+  | 0, _ => []
+  | _, [] => []
+  | n + 1, t :: rest =>
+    if t = 255 then []
+    else if t = 0 then 0 :: keptOptions n rest
+    else match rest with
+      | [] => []
+      | l :: body => t :: l :: (body.take l ++ keptOptions n (body.drop l))
+
+/-- `resp.ToBytes()` decoded by gopacket as `layers.LayerTypeDHCPv4` and serialised again (`(*DHCPv4).SerializeTo`):
+the 240 bytes up to the magic cookie, the options kept and one End; a message without options gets a zero byte
+and no End (`Len()` counts the End, `SerializeTo` writes it only when there are options).  For the result of a
+`ToBytes()` (hardware address padded with zeros, well-formed options) -/
+def dhcpLayerBytes (w : Bytes) : Bytes :=
+  let o := keptOptions w.length (w.drop 240)
+  w.take 240 ++ (if o = [] then [0] else o ++ [255])
 
 /-- the frame handed to the packet socket, field by field -/
 structure Frame where
